@@ -138,11 +138,17 @@ func (commander *Commander) exec(ctx context.Context, parameters Parameters, scr
 			return nil, nil, NewErrNoPostings()
 		}
 
+		// a dry run answers with the id the transaction would get, without consuming it
+		txID := commander.peekTXID()
+		if !parameters.DryRun {
+			txID = commander.nextTXID()
+		}
+
 		tx := ledger.NewTransaction().
 			WithPostings(result.Postings...).
 			WithMetadata(result.Metadata).
 			WithDate(script.Timestamp).
-			WithID(commander.nextTXID()).
+			WithID(txID).
 			WithReference(script.Reference)
 
 		log := logComputer(tx, result.AccountMetadata)
@@ -270,6 +276,13 @@ func (commander *Commander) nextTXID() *big.Int {
 	commander.lastTXID = ret
 
 	return ret
+}
+
+func (commander *Commander) peekTXID() *big.Int {
+	commander.mu.Lock()
+	defer commander.mu.Unlock()
+
+	return big.NewInt(0).Add(commander.lastTXID, big.NewInt(1))
 }
 
 func (commander *Commander) DeleteMetadata(ctx context.Context, parameters Parameters, targetType string, targetID any, key string) error {
